@@ -82,3 +82,4 @@ PROP = Prop(
                  'tolerances 1e-10 relative on measures, 1e-9 on containment'],
     subs=[Sub('uniform', body, strategy=case, quick=500, thorough=10000)],
     design_ref='DESIGN.md section 6, C12')
+PROP.rule += ('. Added in round 2: triangle meshes with sort_t=False and meshes returned by oriented().')
